@@ -2,6 +2,7 @@ import CnlProofs.Scaled
 import CnlProofs.ScaledFloat
 import CnlProofs.ScaledMixed
 import CnlModel.Wrap
+import CnlModel.ElasticNarrow
 import CnlProofs.CIntLemmas
 /-!
 # C04 — integer ↔ integer conversions between `scaled_integer`s preserve the value or truncate toward zero
@@ -544,5 +545,119 @@ example : (wrap (.el 10 (.int i32)) (i64, 5000000000)).bind unwrap = some (i32, 
 
 
 end WrapInverse
+
+/-! ## scaled_integer over an elastic_integer / a native-rounding nest around one (table `C04w ecvt`)
+
+Model `CnlModel.ElasticNarrow` (value level: the library's route — `elastic_integer/scale.h` with a divisor type of `1 + k`
+digits, or the wrapper division by `power_value<S, k>()` in a type wide enough for both operands — is described there and is
+tied to the code by correspondence only; the theorems below are about the values).  The number `k` of dropped digits is
+unrestricted: at or beyond the width of the word holding the source's digits the result is 0. -/
+namespace ElasticNarrowing
+open Cnl.ElasticNarrow
+
+/-- narrowing by any number of digits `k` (no bound relating `k` to a word width): the model's result is the source value
+truncated toward zero at the destination's resolution -/
+theorem elastic_narrow_truncates (v : Int) (k : Nat) : TruncTo v k (rescale v k) := by
+  have hp : 0 < 2 ^ k := Nat.pos_of_ne_zero (by simp)
+  have hq : (v.tdiv ((2:Int) ^ k)).natAbs = v.natAbs / 2 ^ k := by
+    rw [Int.natAbs_tdiv]; simp [Int.natAbs_pow]; rfl
+  have hr : rescale v k = v.tdiv ((2:Int) ^ k) := by simp [rescale]
+  rw [hr]
+  refine ⟨?_, ?_, ?_⟩
+  · rw [hq]; exact Nat.div_mul_le_self _ _
+  · rw [hq, Nat.mul_comm]; exact Nat.lt_mul_div_succ _ hp
+  · have hpi : (0:Int) < 2 ^ k := by exact_mod_cast hp
+    by_cases hz : v = 0
+    · subst hz; simp
+    by_cases h0 : 0 ≤ v
+    · have := Int.tdiv_nonneg h0 (Int.le_of_lt hpi)
+      omega
+    · have h1 : 0 ≤ -v := by omega
+      have h2 := Int.tdiv_nonneg h1 (Int.le_of_lt hpi)
+      rw [Int.neg_tdiv] at h2
+      omega
+
+/-- the property's demand determines the result: whatever satisfies it is the model's value -/
+theorem elastic_narrow_unique (v : Int) (k : Nat) (r : Int) (h : TruncTo v k r) : r = rescale v k := by
+  have hm := elastic_narrow_truncates v k
+  obtain ⟨a1, a2, a3⟩ := h
+  obtain ⟨b1, b2, b3⟩ := hm
+  generalize rescale v k = q at *
+  have hp : 0 < 2 ^ k := Nat.pos_of_ne_zero (by simp)
+  have habs : r.natAbs = q.natAbs := by
+    rcases Nat.lt_trichotomy r.natAbs q.natAbs with h | h | h
+    · have : (r.natAbs + 1) * 2 ^ k ≤ q.natAbs * 2 ^ k := Nat.mul_le_mul_right _ h
+      omega
+    · exact h
+    · have : (q.natAbs + 1) * 2 ^ k ≤ r.natAbs * 2 ^ k := Nat.mul_le_mul_right _ h
+      omega
+  omega
+
+/-- all the declared digits dropped — in particular `k` at or beyond the width of the word holding them: the result is 0 -/
+theorem elastic_narrow_drops_all_digits (v : Int) (n k : Nat) (hv : v.natAbs ≤ 2 ^ n - 1) (hk : n ≤ k) :
+    rescale v k = 0 := by
+  have h := (elastic_narrow_truncates v k).1
+  have hp : 0 < 2 ^ n := Nat.pos_of_ne_zero (by simp)
+  have hle : 2 ^ n ≤ 2 ^ k := Nat.pow_le_pow_right (by decide) hk
+  generalize rescale v k = q at *
+  by_cases hq : q = 0
+  · exact hq
+  · have : 1 ≤ q.natAbs := by omega
+    have : 1 * 2 ^ k ≤ q.natAbs * 2 ^ k := Nat.mul_le_mul_right _ this
+    omega
+
+/-- the quotient never has more digits than the source: a destination of the same digits holds it -/
+theorem elastic_narrow_fits (v : Int) (k : Nat) : (rescale v k).natAbs ≤ v.natAbs := by
+  have h := (elastic_narrow_truncates v k).1
+  have hp : 0 < 2 ^ k := Nat.pos_of_ne_zero (by simp)
+  generalize (rescale v k).natAbs = a at *
+  have : a * 1 ≤ a * 2 ^ k := Nat.mul_le_mul_left _ hp
+  omega
+
+/-- adding digits is exact -/
+theorem elastic_widen_exact (v : Int) (k : Nat) (hk : 0 < k) : rescale v (-(k : Int)) = v * 2 ^ k := by
+  have : ¬ (0 : Int) ≤ -(k : Int) := by omega
+  unfold rescale
+  rw [if_neg this]
+  simp
+
+/-- the conversion of the model (`ElasticNarrow.convert`, compared line by line with the library over the grid): whenever it
+applies, the result has the destination type and holds the source value exactly (digits added) or truncated toward zero
+(`k = eD − eS` digits dropped, for every `k`) -/
+theorem elastic_convert_exact_or_truncated (r : Ty) (eS : Int) (D : Ty) (eD : Int) (v : Int) (x : Num)
+    (hD : expOf D = some eD) (h : ElasticNarrow.convert (.sc r eS 2) D v = some x) :
+    x.1 = D ∧ (eS ≤ eD → TruncTo v (eD - eS).toNat x.2) ∧ (eD < eS → x.2 = v * 2 ^ (eS - eD).toNat) := by
+  unfold ElasticNarrow.convert at h
+  cases hi : elInfo r with
+  | none => simp [hi] at h
+  | some i =>
+    simp only [hi, hD] at h
+    by_cases hh : holds D (rescale v (eD - eS)) = true
+    · simp only [hh, if_true, Option.some.injEq] at h
+      subst h
+      refine ⟨rfl, ?_, ?_⟩
+      · intro hle
+        have hk : eD - eS = ((eD - eS).toNat : Int) := by omega
+        have := elastic_narrow_truncates v (eD - eS).toNat
+        rw [← hk] at this
+        exact this
+      · intro hlt
+        have hk : eD - eS = -((eS - eD).toNat : Int) := by omega
+        have hpos : 0 < (eS - eD).toNat := by omega
+        show rescale v (eD - eS) = _
+        rw [hk]
+        exact elastic_widen_exact v _ hpos
+    · simp [hh] at h
+
+-- non-vacuity: elastic_integer<31> at 2^-32 to 2^0 (one more digit dropped than the 32-bit word has), static_number<20> at
+-- 2^-40 to 2^-5, a 63-digit source keeping 5 digits
+example : ElasticNarrow.convert (.sc (.el 31 (.int i32)) (-32) 2) (.sc (.el 31 (.int i32)) 0 2) 2147483647
+    = some (.sc (.el 31 (.int i32)) 0 2, 0) := by decide +kernel
+example : ElasticNarrow.convert (.sc (.ov (.el 20 (.rd (.wd 31 (.int i32)) .nat)) .sat) (-40) 2) (.int i64) (-1048575) = some (.int i64, 0) := by
+  decide +kernel
+example : rescale (-9223372036854775807) 58 = -31 := by decide +kernel
+example : TruncTo (-9223372036854775807) 58 (-31) := by decide +kernel
+
+end ElasticNarrowing
 
 end Cnl.C04
